@@ -13,7 +13,7 @@ def seeded_selftest(pid):
     seeds = []
     for mp in sorted(glob.glob(os.path.join(V, "seeded", "*", "meta.json"))):
         m = json.load(open(mp))
-        if pid in m.get("checks", []):
+        if pid in m.get("checks", []) and m.get("kind") != "neutral":
             seeds.append(os.path.basename(os.path.dirname(mp)))
     if not seeds:
         return
